@@ -47,8 +47,47 @@ def cpsr_write_cases(rng, tier):
     return out
 
 
+def coproc_cases(rng, tier):
+    """coproc_accepted for every generic coprocessor number, CPACR/NSACR field value, mode and security state"""
+    t = statelib.load_index(C.GEN)['tables']
+    out = []
+    ix = {n: t['sys_names'].index(n) for n in ('cpsr', 'scr', 'nsacr', 'cpacr')}
+    reps = 1 if tier == 'quick' else 6
+    for cp in [c for c in range(14) if c not in (10, 11)]:
+        for field in range(4):
+            for mode in (16, 19, 31, 22):
+                for ns in (0, 1):
+                    for _ in range(reps):
+                        cfgd = dict(statelib.DEFAULT_CFG)
+                        cfgd['have_security_ext'] = rng.random() < 0.8
+                        if mode == 22 and not cfgd['have_security_ext']:
+                            continue
+                        st = statelib.reset_state(t, cfg=cfgd, mem=[])
+                        cpsr = (rng.getrandbits(27) << 5) | mode
+                        scr = (rng.getrandbits(9) << 1) | ns
+                        nsacr = rng.getrandbits(14) if rng.random() < 0.7 else (rng.getrandbits(14) | (1 << cp))
+                        cpacr = (rng.getrandbits(28) & ~(3 << (2 * cp))) | (field << (2 * cp))
+                        st['sys'][ix['cpsr']] = cpsr
+                        st['sys'][ix['scr']] = scr
+                        st['sys'][ix['nsacr']] = nsacr
+                        st['sys'][ix['cpacr']] = cpacr
+                        instr = rng.getrandbits(32)
+                        hs = int(cfgd['have_security_ext'])
+                        secure = '(IsSecure (Build_sysctx %d 0 %d %d %d) %d)' % (hs, scr, st['sys'][t['sys_names'].index('sctlr')], nsacr, cpsr)
+                        spec = (f'(if coproc_denied {"true" if hs else "false"} {secure} ({mode} =? 16) {nsacr} {cpacr} {cp} '
+                                f'then [2; 6] else [2; 7])')
+                        out.append({'impl': {'kind': 'method', 'state': st, 'method': 'coproc_accepted', 'args': [cp, instr],
+                                             'rt': ['opt', ['Z']], '_only_result': True},
+                                    'model': (f'(match ArmV6_coproc_accepted {statelib.coq_config(cfgd, t)} {cp} {instr} '
+                                              f'{statelib.coq_machine(st)} with Ok _ _ => [0] | Exc e _ => exn_enc e end)'),
+                                    'spec': spec, 'label': f'coproc_cpacr{field}', 'nontrivial': True})
+    return out
+
+
 def units():
     thms = ['C12_cpsr_write', 'C12_user_cannot_mask', 'C12_exec_bits_only_on_return', 'C12_never_bad_mode',
             'C12_no_monitor_from_nonsecure', 'C12_nmfi', 'C12_aw', 'C12_fw', 'C12_reserved']
     return [Unit('cpsr_write', thms, ['Proofs/CpsrWrite.v', 'Proofs/ArchFacts.v'],
-                 ['registers.Registers.cpsr_write_by_instr'], cpsr_write_cases, IMPORTS, SPEC_IMPORTS)]
+                 ['registers.Registers.cpsr_write_by_instr'], cpsr_write_cases, IMPORTS, SPEC_IMPORTS),
+            Unit('coproc_gate', ['C12_coproc_gate'], ['Proofs/CoprocProofs.v'], ['arm_v6.ArmV6.coproc_accepted'], coproc_cases,
+                 IMPORTS, SPEC_IMPORTS + '\nFrom ArmV Require Import Spec.Coproc.')]
